@@ -47,8 +47,10 @@ def monitor (c : CaseIn) (r : ObsRun) : Option String :=
     if !causality c.delay tr then some s!"run {r.run.name}: a TunnelRecv without its own earlier TunnelSent (delay={c.delay})" else
     let complete := (a.maxTraceLength == 0 || tr.length < a.maxTraceLength)
       && (a.maxSimIterations == 0 || tr.length < a.maxSimIterations)
-    if !conservation c.trace complete tr then
-      some s!"run {r.run.name}: normal packets not conserved (complete={complete} c={normalSentCount tr true}/{share c.trace true} s={normalSentCount tr false}/{share c.trace false})"
+    -- a side's share of the input are its normal lines (`s`/`sn`, `r`/`rn`); padding lines do not count
+    let trace := normalLines c.trace
+    if !conservation trace complete tr then
+      some s!"run {r.run.name}: normal packets not conserved (complete={complete} c={normalSentCount tr true}/{share trace true} s={normalSentCount tr false}/{share trace false})"
     else none
 
 end Mb.C15
